@@ -111,8 +111,7 @@ def row(c, r):
   if layer == 'pool' and len(c['window']) == 1:
     import c12_ref as R
     x = np.array(c['x'], dtype=np.int64)
-    if x.ndim == 2:
-      x = x[None]
+    x = x.reshape((-1,) + x.shape[-2:])
     if 0 in g['shape']:
       return None
     y = np.array(g['data']).reshape((-1,) + tuple(g['shape'][-2:]))
